@@ -37,8 +37,11 @@ PY
 export -f run_one
 ls -d /verif/$corpus/*/ | grep "$filter" | xargs -P $JOBS -I{} bash -c 'run_one {} '"$corpus"
 out=$corpus/RESULTS.md
+# with a name filter the stored table is left alone (only the selected rows are printed)
+[ -n "$filter" ] && out=$(mktemp /tmp/owvc_results.XXXXXX)
 if [ "$corpus" = seeded ]; then echo "| seeded change | property | result | failed obligations (first three) |" > $out; else echo "| behaviour-preserving edit | property | result | obligations reported (first three) |" > $out; fi
 echo "|---|---|---|---|" >> $out
 for d in /verif/$corpus/*/; do [ -f $d/.result ] && cat $d/.result >> $out; done
-[ -z "$filter" ] && rm -f /verif/$corpus/*/.result
+rm -f /verif/$corpus/*/.result
 cat $out
+[ -n "$filter" ] && rm -f $out
